@@ -640,9 +640,15 @@ impl Scenario for C12 {
         }
     }
     fn generate(&self, rng: &mut Prng, _tier: Tier) -> Spec {
+        if rng.chance(1, 40) {
+            return gen_nested_spec(rng, "C12", "nested_timer");
+        }
         gen_jitter_spec(rng, "C12", &jitter_fault_set(), false)
     }
     fn execute(&self, spec: &Spec, st: &mut Stats) -> RunEnd {
+        if spec.variant == "nested_timer" {
+            return run_nested_c12(spec, st);
+        }
         run_jitter_history(spec, st, &JitterRunCfg { prop: "C12", c16: false })
     }
     fn rule(&self) -> String {
@@ -676,4 +682,174 @@ impl Scenario for C12 {
             "fault:wrap_u64",
         ]
     }
+}
+
+
+// ------------------------------------------------------------------------------------------
+// Nested use: a JitterRng advanced from INSIDE the timer callback of another JitterRng on the
+// same thread. "For every timer" includes a timer that itself draws from a second, scripted
+// generator; per-thread scratch state that is busy during the outer collection must not change
+// what the inner one does.
+// ------------------------------------------------------------------------------------------
+
+struct Unsync<T>(T);
+unsafe impl<T> Send for Unsync<T> {}
+unsafe impl<T> Sync for Unsync<T> {}
+
+struct NestState {
+    inner: Box<dyn DynGen>,
+    ops: Vec<Op>,
+    next_op: usize,
+    results: Vec<(Out, u64)>,
+    fail: Option<SutFail>,
+    i: u64,
+    t: u64,
+}
+
+pub fn gen_nested_spec(rng: &mut Prng, prop: &str, variant: &str) -> Spec {
+    let mut spec = Spec { prop: prop.into(), variant: variant.into(), kind: Some(Kind::Jitter), ..Default::default() };
+    spec.rounds = Some(rng.range(1, 4) as u8);
+    let n = rng.range(1, 8);
+    spec.ops = (0..n)
+        .map(|_| match rng.below(4) {
+            0 => Op::U32,
+            1 => Op::Fill(rng.range(0, 17) as u32),
+            _ => Op::U64,
+        })
+        .collect();
+    spec.clock = Some(gen_plain_clock(rng, 400));
+    let stride = rng.range(1, 5);
+    // aux: outer rounds, stride, offset (the inner generator is advanced at the outer timer readings i with
+    // i % stride == offset), key of the outer timer's own time stamps
+    spec.aux = vec![rng.range(1, 3), stride, rng.below(stride), rng.u64()];
+    spec
+}
+
+/// Runs the inner generator's operations; `nested`: each one from inside a timer reading of an outer
+/// JitterRng, else directly. Returns per operation (output, cumulative readings of the inner clock).
+pub fn run_nested(spec: &Spec, nested: bool) -> Result<Vec<(Out, u64)>, RunEnd> {
+    use std::sync::Mutex;
+    let clock = Arc::new(spec.clock.clone().expect("clock"));
+    let mut inner = build_jitter(clock);
+    inner.jitter().unwrap().set_rounds(spec.rounds.unwrap_or(1).max(1));
+    let step = |s: &mut NestState| {
+        let op = s.ops[s.next_op].clone();
+        s.next_op += 1;
+        let r = s.inner.jitter_ref().unwrap().reads();
+        s.inner.jitter_ref().unwrap().set_cap(r + 60_000);
+        let call = match op {
+            Op::U32 => crate::models::stream::Call::U32,
+            Op::Fill(n) => crate::models::stream::Call::Fill(n as usize),
+            _ => crate::models::stream::Call::U64,
+        };
+        match super::c05::do_call(s.inner.as_mut(), call) {
+            Ok(o) => {
+                let reads = s.inner.jitter_ref().unwrap().reads();
+                s.results.push((o, reads));
+            }
+            Err(e) => s.fail = Some(e),
+        }
+    };
+    let mut st0 = NestState { inner, ops: spec.ops.clone(), next_op: 0, results: Vec::new(), fail: None, i: 0, t: spec.aux[3] | 1 };
+    if !nested {
+        while st0.next_op < st0.ops.len() && st0.fail.is_none() {
+            step(&mut st0);
+        }
+    } else {
+        let (stride, offset, key) = (spec.aux[1].max(1), spec.aux[2], spec.aux[3]);
+        let shared = Arc::new(Mutex::new(Unsync(st0)));
+        let sh = shared.clone();
+        let timer = move || -> u64 {
+            let mut g = sh.lock().unwrap();
+            let s = &mut g.0;
+            let i = s.i;
+            s.i += 1;
+            if i % stride == offset && s.next_op < s.ops.len() && s.fail.is_none() {
+                step(s);
+            }
+            // the outer generator's own time stamps: hashed steps, never constant
+            let mut z = (i ^ key).wrapping_mul(0x9e37_79b9_7f4a_7c15);
+            z = (z ^ (z >> 30)).wrapping_mul(0xbf58_476d_1ce4_e5b9);
+            z ^= z >> 27;
+            s.t = s.t.wrapping_add(100 + z % 997);
+            s.t
+        };
+        let mut outer = rand_jitter::JitterRng::new_with_timer(timer);
+        outer.set_rounds(spec.aux[0].clamp(1, 8) as u8);
+        for _ in 0..64 {
+            {
+                let g = shared.lock().unwrap();
+                if g.0.next_op >= g.0.ops.len() || g.0.fail.is_some() {
+                    break;
+                }
+            }
+            use rand_core::RngCore;
+            if let Err(e) = guard(|| outer.next_u64()) {
+                return Err(match e {
+                    SutFail::Panic(m) => sut_panic("outer next_u64", &m),
+                    SutFail::ClockAbort => RunEnd::Discard("clock_abort".into()),
+                });
+            }
+        }
+        drop(outer);
+        let g = match Arc::try_unwrap(shared) {
+            Ok(m) => m.into_inner().unwrap(),
+            Err(_) => return Err(RunEnd::Discard("HARNESS_PANIC: nested state still shared".into())),
+        };
+        st0 = g.0;
+    }
+    match st0.fail {
+        Some(SutFail::Panic(m)) => Err(sut_panic("nested op", &m)),
+        Some(SutFail::ClockAbort) => Err(RunEnd::Discard("stuck_script".into())),
+        None => Ok(st0.results),
+    }
+}
+
+fn run_nested_c12(spec: &Spec, st: &mut Stats) -> RunEnd {
+    st.evals += 1;
+    let got = match run_nested(spec, true) {
+        Ok(g) => g,
+        Err(e) => return e,
+    };
+    st.count("probe:nested_in_timer_callback");
+    let clock = Arc::new(spec.clock.clone().expect("clock"));
+    let mut m = JitterModel::new(ModelClock::new(clock));
+    m.set_rounds(spec.rounds.unwrap_or(1).max(1));
+    for (i, (op, (out, reads))) in spec.ops.iter().zip(got.iter()).enumerate() {
+        let cap = m.reads() + STUCK_CAP;
+        let exp = match op {
+            Op::U32 => m.next_u32(cap).map(Out::U32),
+            Op::Fill(n) => {
+                if *n == 0 {
+                    Ok(Out::Bytes(vec![]))
+                } else {
+                    m.fill_bytes(*n as usize, cap).map(Out::Bytes)
+                }
+            }
+            _ => m.next_u64(cap).map(Out::U64),
+        };
+        let exp = match exp {
+            Ok(e) => e,
+            Err(_) => return RunEnd::Discard("stuck_script".into()),
+        };
+        if let Op::Fill(0) = op {
+            // whether a pending half survives fill_bytes(0) is not stated: stop comparing here
+            if m.half {
+                return RunEnd::Ok;
+            }
+        }
+        super::c05::log_out(st, out);
+        st.sig(&[55, op.code(), spec.aux[1], spec.aux[2], spec.aux[0]]);
+        if *out != exp || *reads != m.reads() {
+            return viol(
+                "C12/nested_value_mismatch",
+                "JitterRng:nested",
+                format!(
+                    "inner generator advanced from inside the timer callback of another JitterRng (same thread): op #{} {:?} returned {:?} after {} readings in total, the procedure gives {:?} after {}",
+                    i, op, out, reads, exp, m.reads()
+                ),
+            );
+        }
+    }
+    RunEnd::Ok
 }
